@@ -649,6 +649,93 @@ def rule_attributes_shown(repo, rule='C09.R10'):
     rr.require_floor(4)
     return rr
 
+def rule_per_subset_rendering(repo, rule='C09.R11'):
+    """Every renderer shows subset k from the records of subset k: the rendering of a three-subset (uncompressed, differently shaped)
+    data section is, piece by piece, the rendering of each subset on its own.  Folded for the four renderers on a scripted
+    TemplateData whose `decoded_descriptors` / `decoded_nodes` / ... (the records of the subset wired last) differ from subset to
+    subset, as they do after wiring."""
+    rr = RuleResult(rule, 'renderers take the nodes, descriptors, links and values of subset k for subset k (three differently shaped subsets, four renderers)')
+    shapes = [
+        [(_elem(1001, 'BLOCK'), 1), (_elem(12101, 'TEMPERATURE'), 271.5)],
+        [(_elem(1002, 'STATION'), 2), (_elem(12102, 'WET BULB'), 280.0), (_elem(10004, 'PRESSURE'), 1000), (_elem(33007, 'CONFIDENCE', 'CODE TABLE'), 70)],
+        [(_elem(1003, 'REGION'), 3)],
+    ]
+    links = [{}, {3: 2}, {}]
+
+    def subset(k):
+        descs = [d for d, _ in shapes[k]]
+        vals = [v for _, v in shapes[k]]
+        nodes = [Obj('ValueDataNode', {'descriptor': d, 'index': i}) for i, d in enumerate(descs)]
+        if links[k]:
+            for a, o in links[k].items():
+                q = Obj('QualityInfoNode', {'descriptor': descs[a], 'index': a})
+                nodes[o].fields['attributes'] = [q]
+                nodes[a] = q
+        return nodes, descs, vals, dict(links[k])
+
+    def td(ks):
+        parts = [subset(k) for k in ks]
+        f = {'n_subsets': len(ks), 'is_compressed': False,
+             'decoded_nodes_all_subsets': [p[0] for p in parts], 'decoded_descriptors_all_subsets': [p[1] for p in parts],
+             'decoded_values_all_subsets': [p[2] for p in parts], 'bitmap_links_all_subsets': [p[3] for p in parts]}
+        # the "current subset" records are those of the subset wired last
+        f.update({'decoded_nodes': parts[-1][0], 'decoded_descriptors': parts[-1][1], 'decoded_values': parts[-1][2], 'bitmap_links': parts[-1][3]})
+        return Obj('TemplateDataStub', f)
+
+    def pieces(out, n):
+        if isinstance(out, str):
+            got, cur = [], None
+            for l in out.split('\n'):
+                if l.startswith('######'):
+                    cur = []
+                    got.append(cur)
+                elif cur is not None:
+                    cur.append(l)
+            return got
+        return list(out) if isinstance(out, list) else None
+    for renderer in ('FlatTextRenderer', 'NestedTextRenderer', 'FlatJsonRenderer', 'NestedJsonRenderer'):
+        fi = repo.method(renderer, '_render_template_data')
+
+        def render(ks):
+            it = TextInterp(repo, renderer)
+            res = it.run_function(fi, lambda: {'self': Obj(renderer, {}), 'template_data': td(ks)}, self_class=renderer)
+            if len(res) != 1:
+                raise AnalysisError('%s._render_template_data forks on concrete data' % renderer)
+            return res[0]
+        for order in ([0, 1, 2], [2, 0, 1]):
+            whole = render(order)
+            rr.instance('%s: subsets %s together and one by one' % (renderer, order))
+            if not whole.ok:
+                rr.fail('%s:per-subset' % renderer, fi.where, '%s fails with %s on three uncompressed subsets of different shapes (orders %s); each subset alone renders' % (
+                    renderer, whole.exc.cls, order), witness={'order': order})
+                continue
+            got = pieces(whole.value, 3)
+            for pos, k in enumerate(order):
+                alone = render([k])
+                if not alone.ok:
+                    raise AnalysisError('%s._render_template_data fails on a single subset: %s' % (renderer, alone.describe()))
+                want = pieces(alone.value, 1)
+                if got is None or want is None or len(got) != 3 or len(want) != 1 or freeze_json(got[pos]) != freeze_json(want[0]):
+                    rr.fail('%s:per-subset' % renderer, fi.where, '%s shows subset %d of [%s] as %s; rendered alone it is %s: records of another subset are used' % (
+                        renderer, pos + 1, ', '.join('shape %d' % x for x in order), _short(got[pos] if got and len(got) > pos else got), _short(want[0] if want else want)),
+                        witness={'order': order, 'position': pos})
+                    break
+    rr.require_floor(8)
+    return rr
+
+
+def freeze_json(v):
+    if isinstance(v, dict):
+        return tuple(sorted((k, freeze_json(x)) for k, x in v.items()))
+    if isinstance(v, (list, tuple)):
+        return tuple(freeze_json(x) for x in v)
+    return repr(v)
+
+
+def _short(v):
+    s = repr(v)
+    return s if len(s) < 300 else s[:297] + '...'
+
 
 def rule_r5(repo):
     rr = RuleResult('C09.R5', 'text renderings fold back to the flat values: every line kind and value shape, rendered and read back')
@@ -824,10 +911,14 @@ def run(repo, check):
     check.add(r6)
     check.run_rule(rule_registered, repo)
     check.run_rule(rule_attributes_shown, repo)
+    check.run_rule(rule_per_subset_rendering, repo)
     from sa.rules.common import share
     share(check, repo, c06.rule_alias, 'C09.R8', 'node / link records: one per subset when uncompressed, one shared record when compressed (shared with C05.R3 / C06.R5)', args=('C09.R8',))
     from sa.rules import c03 as _c03
     from sa.rules.common import share as _sh
     _sh(check, repo, _c03.rule_r3, 'C09.R9', 'the JSON renderings carry values and character bytes unchanged: one 8-bit codec on both sides (shared with C03.R3)')
+    from sa.rules import c13 as _c13
+    _sh(check, repo, _c13.rule_r3, 'C09.R12', 'renderers keep nothing from one subset or message to the next (shared with C13.R3)',
+        keep=lambda f: 'Renderer' in f.key or 'TemplateData' in f.key)
     check.assumptions = ['each primitive appends exactly one flat entry (C01.R3 / C02.R5), so emissions count flat entries',
                          'conservation of the values of a particular message is a runtime fact and is not decided']
